@@ -60,7 +60,12 @@ RULE = (
     "tick after the deadline, all request kinds: overdue timers then fire in one batch behind the reply. "
     "LINK-LOSS — requests to a peer are pending while that peer's P link is closed (EOF / RST by the peer, "
     "disconnect by the client), with or without a second P link (closed too or not), with or without the peer "
-    "connecting again and replying over the new link before / after the deadline. The first cases "
+    "connecting again and replying over the new link before / after the deadline. "
+    "UPLOAD-NEGOTIATION (separate cases, 170 quick / 20000 thorough + 12 hand-written) — a library-internal pending "
+    "request: the real client uploads a shared file to a scripted downloader that stays silent for 0..2 negotiations "
+    "(each is requeued after the 30 s reply timeout and renegotiated with a NEW ticket), sends 0..2 PeerTransferReply "
+    "frames carrying the ticket of an EARLIER negotiation or a ticket never issued (allowed true/false, 0..20 s into "
+    "a pending negotiation) and finally answers the pending ticket (allow / reject / never). The first cases "
     "are hand-written minimal histories of all of the above, then random.Random(f'{seed}:C12:{idx}') histories. "
     "Non-trivial = at least one request outcome was judged against the model; distinct = (multiset of request kinds, "
     "message pattern classes, segment shape, timing classes)."
@@ -100,6 +105,11 @@ ASSUMPTIONS = [
     "be lost (not judged). Requests are started before the link is closed (a request made without any connection "
     "would have to connect first: C11). The server connection dropping while server requests are pending is not "
     "exercised: the statement is silent on it and the client logs out.",
+    "Upload negotiation (judged from the transfer's state edges, the frames the downloader saw and the file "
+    "connections it received): the k-th entry into INITIALIZING is the negotiation of the k-th PeerTransferRequest; a "
+    "negotiation may only end FAILED with the reason of a reply carrying ITS ticket, UPLOADING after an allowing "
+    "reply carrying its ticket, or QUEUED at its deadline (30 s, +-1 s); a file connection may only carry a ticket "
+    "that an allowing reply for that ticket accepted; the reply that does carry the pending ticket must take effect.",
     "Not judged: which of several timers due at one virtual instant fires first (only varied, both outcomes accepted); "
     "callable matchers that raise; the cancel-on-send-failure path of execute() (needs a write that fails while the "
     "connection still looks open); D/F connections and obfuscated links (same on_message_received path); requests "
@@ -114,14 +124,17 @@ MIN_OBS = {
               'cancel_at_arrival_plus_hops': 300, 'deadline_at_arrival': 700,
               'requests_ended_while_handlers_suspended': 280, 'judged_by_order_at_the_call_instant': 450,
               'deadline_inside_a_stall': 200, 'reply_and_deadline_inside_one_stall': 140,
-              'peer_link_closed_while_pending': 700, 'completed_over_another_link_after_a_close': 150},
+              'peer_link_closed_while_pending': 700, 'completed_over_another_link_after_a_close': 150,
+              'upload_histories': 175, 'upload_negotiations_judged': 300, 'stale_replies_while_negotiation_pending': 150},
     'thorough': {'histories': 640000, 'requests_judged': 1100000, 'messages_delivered': 1300000,
                  'same_instant_cases': 230000, 'back_to_back_segments': 190000, 'residue_checks': 640000,
                  'later_delivery_checks': 640000, 'cancel_at_arrival_order_a': 8000, 'cancel_at_arrival_order_b': 15000,
                  'cancel_at_arrival_order_c': 6000, 'cancel_at_arrival_plus_hops': 50000, 'deadline_at_arrival': 115000,
                  'requests_ended_while_handlers_suspended': 42000, 'judged_by_order_at_the_call_instant': 70000,
                  'deadline_inside_a_stall': 30000, 'reply_and_deadline_inside_one_stall': 22000,
-                 'peer_link_closed_while_pending': 110000, 'completed_over_another_link_after_a_close': 25000},
+                 'peer_link_closed_while_pending': 110000, 'completed_over_another_link_after_a_close': 25000,
+                 'upload_histories': 20000, 'upload_negotiations_judged': 35000,
+                 'stale_replies_while_negotiation_pending': 17000},
 }
 SHARD_TIMEOUT = {'quick': 600, 'thorough': 5400}
 WHAT_FAILS = {
@@ -139,6 +152,8 @@ WHAT_FAILS = {
     'later-delivery-broken': 'after the history a fresh request + matching reply did not complete',
     'request-never-ended:': 'a request neither returned nor raised after its deadline',
     'wrong-value:': 'the value returned to the caller is not the one carried by the completing message',
+    'upload-negotiation:': 'a PeerTransferReply carrying another ticket than the one of the pending upload negotiation '
+                           'ended that negotiation (failed it, started the upload, or made it give up early)',
 }
 
 # --------------------------------------------------------------------------
@@ -2063,14 +2078,18 @@ def run_upload_case(params: dict) -> dict:
         res['inconclusive'] = 'the upload was never negotiated'
         return res
     by_reason = {r['reason']: r for r in replies if not r['allowed']}
-    # every edge out of INITIALIZING belongs to the negotiation whose request was sent last before it
+    # the k-th entry into INITIALIZING starts the k-th negotiation (= the k-th PeerTransferRequest the downloader saw);
+    # the edge that leaves INITIALIZING next is the end of that negotiation
+    k_neg = 0
+    end_of: dict[int, dict] = {}
     for e in edges:
-        if e['old'] != 'INITIALIZING':
+        if e['new'] == 'INITIALIZING':
+            k_neg += 1
             continue
-        cur = [r for r in reqs if r['t'] - lat <= e['t']]
-        if not cur:
+        if e['old'] != 'INITIALIZING' or not 1 <= k_neg <= len(reqs):
             continue
-        cur = cur[-1]
+        cur = reqs[k_neg - 1]
+        end_of[k_neg] = e
         runner.add_obs(res, 'upload_negotiations_judged')
         own = [r for r in replies if r['ticket'] == cur['ticket'] and r['t'] + lat <= e['t']]
         deadline = cur['t'] - lat + REPLY_TIMEOUT_S
@@ -2096,7 +2115,7 @@ def run_upload_case(params: dict) -> dict:
     if len(reqs) >= n_att:
         cur = reqs[n_att - 1]
         deadline = cur['t'] - lat + REPLY_TIMEOUT_S
-        after = [e for e in edges if e['old'] == 'INITIALIZING' and e['t'] >= cur['t'] - lat]
+        after = [end_of[n_att]] if n_att in end_of else []
         if final['act'] == 'allow':
             good = any(fl['ticket'] == cur['ticket'] for fl in obs['flinks']) and obs['final_state'] == 'COMPLETE'
             if not good:
